@@ -13,7 +13,7 @@ META = {
             "return bit is non-constant and depends on >= 2 input bits; distinct = distinct tuples of "
             "return-bit truth tables (digest) among non-trivial cases.",
     "bound": {"quick": "B: all trees <=2 ops (all labelings, 2-3 vars), <=3 ops (first-occurrence labelings, <=5 vars), "
-                       "shape templates; I1/S/T quick lists; M: 1 516 programs (two temporaries; overwritten arguments)",
+                       "shape templates; I1/S/T quick lists; M: 1 840 programs (two temporaries; overwritten arguments; overwritten copies)",
               "thorough": "B additionally 4 operator nodes over <=4 vars; I1/S/T thorough lists"},
     "assumptions": [
         "bitsim (60-line bit-parallel X/CX/MCX simulator) is the meaning of a classical reversible circuit; "
